@@ -479,6 +479,12 @@ def run(ctx):
     if st["ConfigTables"] != "ok":
         ctx.obligation_broken("translate:ConfigTables", st["ConfigTables"])
     ctx.lean_obligations("GeckoModel.Properties.C17")
+    try:
+        import geckolib.config, geckolib.automation.async_facade, geckolib.automation.pump, geckolib.automation.blower  # noqa
+    except BaseException as e:  # noqa   (a tree that does not even import)
+        ctx.violation("import-failed", {"kind": "import"}, "geckolib imports", f"{type(e).__name__}: {e}")
+        ctx.cov["rule"] = "the library under test could not be imported"
+        return
 
     # exact runs: ready-callback order shuffled, timers exact
     exact = []
@@ -519,6 +525,12 @@ def run(ctx):
 
 
 def replay(inp):
+    if inp.get("kind") == "import":
+        try:
+            import geckolib.config, geckolib.automation.async_facade  # noqa
+            return False, "imports"
+        except BaseException as e:  # noqa
+            return True, f"{type(e).__name__}: {e}"
     if inp.get("kind") == "facade":
         got = facade_mode(inp["pumps"], inp["blowers"])
         want = "1" if any(_is_on(t) for t in inp["pumps"] + inp["blowers"]) else "0"
